@@ -818,7 +818,8 @@ func (g *gxGen) mkGroupings() {
 		chain := []*gsStmt{m.stmt}
 		depth := 0
 		// sometimes inside an earlier grouping of the same module, or inside a fresh container
-		if g.rng.Intn(3) == 0 {
+		place := g.rng.Intn(8)
+		if place <= 1 {
 			var cands []*gxGrouping
 			for _, o := range g.groupings {
 				if o.mod == m && o.depth == 0 {
@@ -829,11 +830,11 @@ func (g *gxGen) mkGroupings() {
 				o := cands[g.rng.Intn(len(cands))]
 				host, chain, depth = o.stmt, []*gsStmt{m.stmt, o.stmt}, 1
 			}
-		} else if g.rng.Intn(4) == 0 {
+		} else if place == 2 {
 			c := gs("container", g.fresh("hc"))
 			m.stmt.add(c)
 			host, chain, depth = c, []*gsStmt{m.stmt, c}, 1
-		} else if g.rng.Intn(4) == 0 {
+		} else if place <= 5 {
 			// inside a container or list that exists already, at any depth
 			type cand struct {
 				s     *gsStmt
